@@ -523,7 +523,7 @@ func genHist(t *rapid.T) histCase {
 	return c
 }
 
-var chkHist = harness.Define("read-histories", genHist, runHist)
+var chkHist = harness.Define("read-histories", genHist, runHist).Repeated(2)
 
 func TestRandom(t *testing.T) {
 	chkHist.Rapid(t, harness.Pick(3000, 200000))
